@@ -834,21 +834,16 @@ theorem assign_rejects_nan {cls f : String} {kvs : Kvs} {old : Cfg} {r : Rule}
   intro kvs' h
   exact nan_rejected r (assign_accepts_only_valid hl hr hm h).1
 
-/-- F-C20h: that is **false** of `PreprocessingConfig.scale` and `ReduceLROnPlateauConfig.min_lr` as they
-are in /repo: their validators ignore the `value` argument and read `self.<field>`, i.e. the OLD value —
-NaN (any invalid value) is accepted over a valid one, and a valid value is refused over an invalid one -/
+/-- REGRESSION RECORD (F-C20h, fixed): a validator that reads `self.<field>` (`checksOld = true`, as
+`validate_scale()` / `validate_min_lr()` did) accepts NaN over a valid value and refuses a valid value
+over an invalid one; the validators now receive the assigned value, the table is empty -/
 theorem assign_checks_old_counterexample :
-    assignChecksOld "PreprocessingConfig" "scale" = true ∧
-    assignChecksOld "ReduceLROnPlateauConfig" "min_lr" = true ∧
     (assignField true "PreprocessingConfig" [("scale", fl 1)] "scale" (.leaf .nan)).toBool = true ∧
     (assignField true "PreprocessingConfig" [("scale", .leaf .nan)] "scale" (fl 1)).toBool = false ∧
     (assignField false "PreprocessingConfig" [("scale", fl 1)] "scale" (.leaf .nan)).toBool = false := by
   decide
 
-/-- … and true of every other validated field: the table of old-value validators is exactly those two -/
-theorem assign_checks_old_only (cls f : String) (h : assignChecksOld cls f = true) :
-    (cls = "PreprocessingConfig" ∧ f = "scale") ∨ (cls = "ReduceLROnPlateauConfig" ∧ f = "min_lr") := by
-  simpa [assignChecksOld] using h
+theorem assign_checks_old_only (cls f : String) : assignChecksOld cls f = false := rfl
 
 /-! ## `train()` -/
 
